@@ -28,7 +28,7 @@ var legScopes = map[string][]string{
 		"held-message-is-found", "api-is-served-under-the-base-path", "webui-", "nothing-is-served-outside-the-base-path", "root-redirects-to-the-base-path",
 		"expvar-is-served-under-the-base-path", "asm-final-mailbox-over-rest", "mail-is-fetchable-by-address", "mailbox-name-is-a-fixed-point"},
 	"C15": {"monitor-", "history-", "hub-listener-", "asm-monitor-history", "events-are-delivered",
-		"exactly-once", "arrival-order", "stored-before-deleted", "hub-history", "e2e-setup"},
+		"exactly-once", "arrival-order", "stored-before-deleted", "hub-history", "e2e-setup", "delivery-events-exact"},
 	"C19": {"shutdown-completes", "drain-", "open-session-", "no-new-connection-after-shutdown", "service-failure-shuts-the-program-down", "clean-shutdown-exits-zero", "no-dropped-connection"},
 }
 
@@ -76,6 +76,7 @@ func init() {
 	attach("C14", func(c *core.Ctx) { sysLegN(c, 600, 8000); asmLegN(c, 16, 200) })
 	attach("C05", func(c *core.Ctx) { asmLegN(c, 16, 200) })
 	// the hub as the program wires it: registered on a real extension.Host, fed by real stores under concurrent deliveries / removals / purges
-	attach("C15", func(c *core.Ctx) { c16bE2E(c); asmLegN(c, 24, 300) })
+	// ... and what reaches the event brokers (hence the hub) when mail is delivered through the real manager: multi-recipient, capped, failing stores
+	attach("C15", func(c *core.Ctx) { c16bE2E(c); runC16Deliver(c); asmLegN(c, 24, 300) })
 	attach("C19", func(c *core.Ctx) { asmLegN(c, 24, 300) })
 }
